@@ -3,6 +3,7 @@ package bpv7
 import (
 	"bytes"
 	"fmt"
+	"io"
 	"testing"
 
 	vk "github.com/dtn7/dtn7-go/pkg/verifkit"
@@ -14,6 +15,56 @@ import (
 type c01Case struct {
 	Registered bool          `json:"registered"` // custom block types registered?
 	Spec       vk.BundleSpec `json:"spec"`
+	// what the codec did right before, in the same process: 0 nothing; 1 a serialisation that failed inside a block
+	// (a routing block holding an endpoint that cannot be encoded); 2 a serialisation into a writer that fails after
+	// After/4 bytes; 3 a parse of a truncated encoding
+	After int `json:"after,omitempty"`
+}
+
+// c01Before lets the codec fail once, the way it fails in a running node, before the case proper.
+func c01Before(c *vk.Ctx, cs *c01Case, now uint64) {
+	switch cs.After % 4 {
+	case 1:
+		for _, blk := range []ExtensionBlock{NewProphetBlock(map[EndpointID]float64{{}: 0.5, MustNewEndpointID("dtn://x/"): 0.25}),
+			NewDTLSRBlock(DTLSRPeerData{ID: MustNewEndpointID("dtn://x/"), Timestamp: DtnTimeNow(), Peers: map[EndpointID]DtnTime{{}: 7}})} {
+			bad, err := Builder().CRC(CRC32).Source("dtn://x/").Destination("dtn://y/").CreationTimestampNow().Lifetime("1h").
+				HopCountBlock(9).Canonical(blk).PayloadBlock([]byte("c01")).Build()
+			if err != nil {
+				continue
+			}
+			if err := bad.WriteBundle(io.Discard); err != nil {
+				c.Class("after a serialisation that failed inside a block")
+			}
+		}
+	case 2:
+		b := vfBundle(&cs.Spec, now)
+		if full, err := vfWrite(&b); err == nil && len(full) > 0 {
+			fw := &vfFailWriter{left: (cs.After / 4) % len(full)}
+			if err := b.WriteBundle(fw); err != nil {
+				c.Class("after a serialisation into a failing writer")
+			}
+		}
+	case 3:
+		b := vfBundle(&cs.Spec, now)
+		if full, err := vfWrite(&b); err == nil && len(full) > 1 {
+			if _, err := vfParse(full[:1+(cs.After/4)%(len(full)-1)]); err != nil {
+				c.Class("after a parse that failed")
+			}
+		}
+	}
+}
+
+// vfFailWriter accepts `left` bytes and fails then.
+type vfFailWriter struct{ left int }
+
+func (w *vfFailWriter) Write(p []byte) (int, error) {
+	if len(p) > w.left {
+		n := w.left
+		w.left = 0
+		return n, io.ErrClosedPipe
+	}
+	w.left -= len(p)
+	return len(p), nil
 }
 
 func firstDiff(a, b []byte) int {
@@ -82,6 +133,7 @@ func c01ValidBody(c *vk.Ctx, cs c01Case) {
 	if len(s.Blocks) > 1 || s.PayloadSpec().PayLen >= 24 {
 		c.NonTrivial()
 	}
+	c01Before(c, &cs, now)
 	b := vfBundle(s, now)
 	bytes1, err := vfWrite(&b)
 	if err != nil {
@@ -136,9 +188,13 @@ func c01ValidBody(c *vk.Ctx, cs c01Case) {
 func TestVerifC01Valid(t *testing.T) {
 	vfRegisterCustom()
 	u := vk.Unit{Property: "C01", Name: "c01.valid", Quick: 4000, Thorough: 240000,
-		Rule: "valid bundle descriptions drawn by the structured generator (all endpoint forms, admissible flag combinations, CRC none/16/32 per block, fragments, 0..7 extension blocks of all registered + unknown types, payload classes up to >2 MiB); oracle: independent encoder byte-equality, parse (also through readers that return short reads: one byte at a time and two cyclic patterns of 1..9 bytes, same verdict and same bundle), field equality, byte-identical re-serialisation; non-trivial = >=1 extension block or payload >= 24 bytes; distinct by case hash"}
+		Rule: "valid bundle descriptions drawn by the structured generator (all endpoint forms, admissible flag combinations, CRC none/16/32 per block, fragments, 0..7 extension blocks of all registered + unknown types, payload classes up to >2 MiB); oracle: independent encoder byte-equality, parse (also through readers that return short reads: one byte at a time and two cyclic patterns of 1..9 bytes, same verdict and same bundle), field equality, byte-identical re-serialisation; in half of the cases the codec has just failed in the same process (a serialisation that failed inside a routing block holding an unencodable endpoint, a serialisation into a writer that breaks after n bytes, a parse of a truncated encoding): the outcome may not depend on it; non-trivial = >=1 extension block or payload >= 24 bytes; distinct by case hash"}
 	vk.Check(t, u, func(t *rapid.T) c01Case {
-		return c01Case{Registered: true, Spec: vk.GenBundle(vk.GenOpts{MaxPayload: 3 << 20}).Draw(t, "bundle")}
+		cs := c01Case{Registered: true, Spec: vk.GenBundle(vk.GenOpts{MaxPayload: 3 << 20}).Draw(t, "bundle")}
+		if rapid.Bool().Draw(t, "history") {
+			cs.After = rapid.IntRange(1, 1<<20).Draw(t, "after")
+		}
+		return cs
 	}, c01ValidBody)
 }
 
